@@ -4,6 +4,7 @@ from .c19 import C19
 from .c03 import C03
 from .c13 import C13
 from .hs import C15, C16, C17
+from .c04 import C04
 from .sock import C01, C02, C05, C06, C07, C08, C09, C10, C11, C12, C14
-REGISTRY = {p.id: p for p in [C01(), C02(), C03(), C05(), C06(), C07(), C08(), C09(), C10(), C11(), C12(), C13(), C14(),
+REGISTRY = {p.id: p for p in [C01(), C02(), C03(), C04(), C05(), C06(), C07(), C08(), C09(), C10(), C11(), C12(), C13(), C14(),
                               C15(), C16(), C17(), C18(), C19(), C20()]}
